@@ -377,6 +377,14 @@ Proof.
   exists l'. split; [exact He|]. split; [exact Hi'|]. split; [lia|lia].
 Qed.
 
+Lemma auto_semi_dev_safe e l :
+  INV text l -> exists l', auto_semi_dev e l = Ok l' /\ INV text l' /\ (l_base l' = l_base l /\ l_tidx l' = l_tidx l) /\ len l' = len l.
+Proof.
+  intros Hi. unfold auto_semi_dev. destruct e; [|exists l; split; [reflexivity|]; split; [exact Hi|]; split; [split; reflexivity|reflexivity]].
+  destruct (emit_at_spec text (l_line l) (l_col l) true true gen_tokenSemicolon 0 l Hi ltac:(lia)) as (l' & He & Hi' & Hb & _ & Hl & _).
+  exists l'. split; [exact He|]. split; [exact Hi'|]. split; [lia|lia].
+Qed.
+
 Lemma code_ident_safe endt first c s :
   INV text (c_l s) -> get (l_src (c_l s)) 0 = Some c ->
   safe (code_ident U endt first c s) (cpost endt s) (ext text (c_l s)).
@@ -491,7 +499,7 @@ Proof.
         destruct (advance_spec text (p + 2) l1 Hi1 ltac:(lia)) as (l2 & Ha2 & Hi2 & Hb2 & _).
         rewrite Ha2, bind_ok.
         assert (Him : INV text (mark_cdev l2)) by (eapply same_core_INV; [|exact Hi2]; auto with sc).
-        destruct (auto_semi_safe (c_elas s) (mark_cdev l2) Him) as (l3 & H3 & Hi3 & Hb3 & Hl3). rewrite H3, bind_ok.
+        destruct (auto_semi_dev_safe (c_elas s) (mark_cdev l2) Him) as (l3 & H3 & Hi3 & Hb3 & Hl3). rewrite H3, bind_ok.
         simpl. split; [|reflexivity]. split.
         + eapply same_core_INV; [|exact Hi3]. destruct (1 <? count_nl (take p (l_src l1))); repeat split.
         + cbn in Hb3. destruct (1 <? count_nl (take p (l_src l1))); cbn; lia.
